@@ -37,7 +37,7 @@ func init() {
 		Rule: "case = one sequence of n distinct random 32-byte hashes; quick n = 1..40, 255,256,257, 4095,4096,4097 and 11 random n <= 5000 (thorough: 1..300, every 16^k-2..16^k+2 for k<=4 incl. 65534..65538, random <= 5000, a few <= 70000). Per case: (a) headers of two accumulations (one re-opened from its buckets at PRNG-chosen points, one on fresh buckets) are compared with each other and with an independently computed header (own SHA3-256 hexary tree, groups of 16 bottom-up) at every prefix (n<=300) or at boundary+random prefixes; (b) Prove(i,0) for every i (n<=300) or boundary+random i must be accepted by a FRESH tree over an empty bucket, and so must the harness' own reference proof; Prove(i,-1) must be accepted when all keys are added in increasing order; (c) altered inputs (hash bit flip, neighbour's hash, proof-node bit flip, node truncated/extended by one hash, dropped first/last node, swapped nodes, extra leading/trailing node, wrong key) must be rejected with an error, not accepted and not crash; (d) SetLen(m) for every m<n (n<=300) or boundary+random m: Len and header must equal the header of accumulating only the prefix, then different hashes are re-added and headers and proofs are re-checked, then the original suffix is restored. Non-trivial = distinct (n,i,alteration) and (n,m) evaluated with n>=2.",
 		MinNonTrivial: func(t string) int {
 			if t == ev.Thorough {
-				return 150000
+				return 300000
 			}
 			return 10000
 		},
